@@ -28,6 +28,9 @@ def run(tier, seed, replay=None):
                                           max_violations=8)
     rep.states += st
     rep.transitions += tr
+    for text, idxs in getattr(validate_trace, "notes", {}).items():
+        log(f"[C15] note (not a violation of C15): {text} in {len(idxs)} recorded run(s)")
+        rep.extra.setdefault("notes", {})[text] = len(idxs)
     rep.traces = info["runs"] - len(bad)
     rep.evaluations = info["runs"]
     par = [e for e in events if e["ev"] == "reset"]
@@ -113,9 +116,13 @@ def run(tier, seed, replay=None):
     rep.transitions += tr2
     rep.traces += len(scheds) - len(bad2)
     rep.evaluations += len(scheds)
+    for text, idxs in getattr(validate_trace, "notes", {}).items():
+        log(f"[C15] note (not a violation of C15): {text} in {len(idxs)} replayed run(s)")
+        rep.extra.setdefault("notes", {})[text + " (replay)"] = len(idxs)
     rep.extra["schedules_replayed"] = len(scheds)
     rep.extra["schedules_followed_exactly"] = info2["followed"]
     rep.extra["schedules_unrealised"] = info2["unrealised"]
+    rep.extra["schedules_inapplicable"] = info2.get("inapplicable", 0)
     rep.sample({"replayed_schedule": scheds[len(scheds) // 2]})
     for idx in bad2:
         e = events2[idx - 1]
@@ -141,6 +148,9 @@ def run(tier, seed, replay=None):
             what += f" (call ended in {e['out']}: {e.get('msg', '')})"
         rep.violation(what, {"run": run_ev, "event": e}, {"event_index": idx, "events_of_run": events[r0 - 1:idx]})
     rc = rep.finish()
-    if rc == 0 and info2["followed"] < 0.9 * len(scheds):
-        raise ToolError(f"only {info2['followed']} of {len(scheds)} model schedules could be followed by the real code: spec and hooks disagree")
+    applicable = len(scheds) - info2.get("inapplicable", 0)
+    if info2.get("inapplicable", 0):
+        log(f"[C15] {info2['inapplicable']} of {len(scheds)} model schedules do not apply: the code took the other sequential / parallel decision, or its partition() gives another number of blocks than DateRangeDefs!PartitionFn")
+    if rc == 0 and applicable > 0 and info2["followed"] < 0.9 * applicable:
+        raise ToolError(f"only {info2['followed']} of {applicable} applicable model schedules could be followed by the real code: spec and hooks disagree")
     return rc
